@@ -454,8 +454,8 @@ def generated_path(ctx, rid):
     ctx.expect("[]" in arms and arms["[]"] == ("opaque", "diverge"), rid, "generated-path/empty", fn["sp"],
                "empty path: unreachable for struct/enum (W3), diverges", "arms: " + str(list(arms)))
     gen = arms.get("_")
-    exp = ("T[#0](mut[Iterator::collect(Iterator::map(P%d.segments,|1|{From::from(format_ident(F[{__private::IdentFragmentAdapter(C1_0)}]))}));"
-           ".Punctuated::insert('0',From::from(P%d))])") % (i_path, i_root)
+    exp = ("T[#0](vec+(From::from(P%d),for(P%d.segments){From::from(format_ident(F[{__private::IdentFragmentAdapter(elem(P%d.segments))}]))}))"
+           % (i_root, i_path, i_path))
     if gen is None:
         ctx.bad(rid, "generated-path/multi", fn["sp"], "no arm for multi-segment paths")
     else:
